@@ -437,8 +437,11 @@ def run(res):
   res.rule = ("code objects (module, functions, lambdas, comprehensions, class bodies, generators, coroutines, async "
               "generators; recursively) of: corpus reproducers, generated programs (c16_gen: nested if/while/for/"
               "try/except*/finally/with/match/async for/async with/await/yield from/comprehensions/lambdas), and "
-              "CPython 3.12 standard-library sources (quick: a fixed async-heavy core + a seeded sample; thorough: all "
-              "files); plus synthetic opcode lists / offset tables (random and template-shaped, incl. malformed "
+              "large generated code objects (c16_gen.big_program: >300 names/attributes/constants/locals so "
+              "that EXTENDED_ARG occurs on every operand kind and on jumps, with each cached instruction kind at the "
+              "END of try/with/loop/match ranges, small and >=256 opargs; SETUP_EXCEPT-first blocks ending in a "
+              "jump), CPython 3.12 standard-library sources (quick: a fixed async-heavy core + a seeded sample; "
+              "thorough: all files); plus synthetic opcode lists / offset tables (random and template-shaped, incl. malformed "
               "ones and python_version 3.10/3.11) run through the real compute_order / _make_opcode_list. A code "
               "object is non-trivial if it has more than one block; distinct by its abstracted opcode list.")
   res.assumptions = [
@@ -493,6 +496,10 @@ def run(res):
   n_gen = 1200 if thorough else 80
   for i in range(n_gen):
     sources.append(("gen%d" % i, c16_gen.program(common.rng(res.seed, "c16gen", i)), None))
+  # large code objects: EXTENDED_ARG on names/attributes/constants/locals/jumps, cached instructions at range ends
+  n_big = 60 if thorough else 6
+  for i in range(n_big):
+    sources.append(("big%d" % i, c16_gen.big_program(common.rng(res.seed, "c16big", i), big=(i % 4 != 3)), None))
   files = stdlib_files()
   if thorough:
     chosen = files
@@ -677,14 +684,13 @@ def run(res):
       continue
     reported += 1
     small = src
-    if info is not None:
-      try:
-        small = shrink_source(src, info[1], fp, budget_s=20.0 if reported == 1 else 5.0)
-      except Exception:  # pylint: disable=broad-except
-        small = src
+    try:
+      small = shrink_source(src, info[1] if info is not None else 0, fp, budget_s=20.0 if reported == 1 else 5.0)
+    except Exception:  # pylint: disable=broad-except
+      small = src
     res.violation(fp, "%s in %s %s" % (v, label, info),
                   {"fingerprint": fp, "file": path, "label": label, "code_object": info,
-                   "source": small if len(small) < 20000 else None, "violation": list(v) if not isinstance(v, str) else v})
+                   "source": small if (len(small) < 200000 or path is None) else None, "violation": list(v) if not isinstance(v, str) else v})
 
   res.extra["code_objects"] = n_objects
   res.extra["code_object_kinds"] = dict(kinds)
